@@ -2,7 +2,7 @@
    the ignore condition over the marker list and the shebang prefix GENERATED from harper-comments/src/masker.rs. *)
 Require Extraction.
 Require Import ExtrOcamlBasic.
-Require Import Base Mask Tables_masks C04JavaDoc.
+Require Import Base Mask Tables_masks C04JavaDoc C04Typst.
 Definition run_comment_mask_gen := run_comment_mask ignore_markers ignore_prefixes shebang_prefix.
 Definition run_ignore_gen := run_ignore ignore_markers ignore_prefixes.
 Extraction Language OCaml.
@@ -10,4 +10,4 @@ Extraction "../ocaml/gen/c04_model.ml"
   run_encode run_decode run_char_index run_b2c run_ts_mask run_comment_mask_gen run_merge_ws run_push_all
   run_mask_parse run_without_initiators run_unit_parse run_jsdoc_lines run_go_parse run_lhs_mask
   run_push_to_all run_def_token run_md_cursors run_md_core run_ignore_gen run_git_cut
-  run_mark_inline_tags run_jsdoc_full run_javadoc.
+  run_mark_inline_tags run_jsdoc_full run_javadoc run_typst.
